@@ -8,6 +8,7 @@
    Event kinds: 23 sem post (v = n), 25 sem wait returned, 21 mutex acquired, 22 mutex about to be released,
    27 cond wait about to release the mutex, 28 cond wait returned with the mutex, 101 semaphore created (v = count),
    102 condition bound to mutex (v = mutex index), 103 item published, 104 item taken, 105 end of execution,
+   121 summary of o unlogged start/join rounds with v violations of ThreadLife's JoinAfterBody/FinishedAfterJoin,
    0 reset.  All other hook kinds are stuttering steps.                                                        *)
 EXTENDS Naturals, FiniteSets, Sequences, TLC, Json, IOUtils
 
@@ -20,7 +21,7 @@ Init == /\ l = 1
         /\ sem = [o \in Objs |-> 0] /\ owner = [o \in Objs |-> 0] /\ bind = [o \in Objs |-> 0]
         /\ produced = {} /\ consumed = {}
 
-Modeled == {0, 21, 22, 23, 25, 27, 28, 101, 102, 103, 104, 105}
+Modeled == {0, 21, 22, 23, 25, 27, 28, 101, 102, 103, 104, 105, 121}
 
 Step ==
   /\ l <= Len(T) /\ l' = l + 1
@@ -46,6 +47,8 @@ Step ==
         /\ produced' = produced \cup {e.v} /\ UNCHANGED <<sem, owner, bind, consumed>>
      \/ /\ e.k = 104 /\ e.v \in produced /\ e.v \notin consumed        \* taken once, and only after it was published
         /\ consumed' = consumed \cup {e.v} /\ UNCHANGED <<sem, owner, bind, produced>>
+     \* summary of e.o start/join rounds without logging: join() returned, the body had run exactly once and finished() was true
+     \/ /\ e.k = 121 /\ e.v = 0 /\ UNCHANGED <<sem, owner, bind, produced, consumed>>
      \/ /\ e.k = 105 /\ consumed = produced /\ \A o \in Objs : owner[o] = 0   \* nothing lost, no mutex left held
         /\ UNCHANGED <<sem, owner, bind, produced, consumed>>
 
